@@ -518,7 +518,7 @@ class C20(Prop):
         for c, ob in zip(cases, obs):
             if c["kind"] == "fea":
                 (rn, rd), (in_, id_) = ob["coef_in"] if "coef_in" in ob else ((0, 1), (0, 1))
-                exprs.append(f"observe_fea {coq_string(c['md'])} {coq_nat(c['n'])} ((({rn}) # {rd})%Q, (({in_}) # {id_})%Q)")
+                exprs.append(f"(0, observe_fea {coq_string(c['md'])} {coq_nat(c['n'])} ((({rn}) # {rd})%Q, (({in_}) # {id_})%Q))")
                 continue
             shape = ob.get("shape_in", c.get("shape", [1]))
             rows, cols = ob.get("hrows", 1), ob.get("hcols", 1)
@@ -529,7 +529,7 @@ class C20(Prop):
             sh = coq_list(shape, coq_nat)
             common = f"{c['mode']} {coq_bool(c['forward'])} {coq_nat(rows)} {sh} {self._q(c['t'])}"
             exprs.append(f"(accepted {coq_nat(rows)} {coq_nat(cols)} {sh}, observe {common} {coq_nat(ncols)}, observe {common} 1%nat)")
-        return coq_eval(ctx, IMPORTS, exprs, shard=150)
+        return coq_eval(ctx, IMPORTS, exprs, shard=60)
 
     # ---- the model's call record in the harness' vocabulary ------------------------------
     @staticmethod
@@ -552,16 +552,14 @@ class C20(Prop):
             d["kwargs"] = ["traceA"]
         return d
 
-    def _compare_calls(self, entries, ob_calls, n_expected):
-        """entries: the model's per-entry calls. Returns message or None."""
-        distinct = []
-        for e in entries:
-            if e not in distinct:
-                distinct.append(e)
-        if len(distinct) != 1:
-            return f"model: the entries of the result come from {len(distinct)} different calls"
-        if n_expected is not None and len(entries) != n_expected:
-            return f"model result has {len(entries)} entries, expected {n_expected}"
+    def _compare_calls(self, runs, ob_calls, n_expected):
+        """runs: the model's run-length encoded per-entry calls [(call, count)]. Returns message or None."""
+        if len(runs) != 1:
+            return f"model: the entries of the result come from {len(runs)} different calls"
+        call0, count = runs[0]
+        if n_expected is not None and count != n_expected:
+            return f"model result has {count} entries, expected {n_expected}"
+        distinct = [call0]
         want = self._model_call(distinct[0])
         if want["kernel"] is None:
             if ob_calls:
@@ -584,6 +582,7 @@ class C20(Prop):
         if "harness_error" in ob:
             return f"harness error: {ob['harness_error']}"
         if case["kind"] == "fea":
+            mo = mo[1]
             if mo is None:
                 if ob.get("exc_type") != "NotImplementedError":
                     return f"model: NotImplementedError; implementation: {ob['exception'] or 'returned'}"
